@@ -147,6 +147,10 @@ Section Model.
                     (nodesum gf gt i (S k0) r)
     end.
 
+  (* net inflow into node i of a per-branch quantity g (g k = value of the k-th branch) *)
+  Definition inflow (g : nat -> A) (i : nat) (bs : list branch) : A :=
+    nodesum (fun k _ => g k) (fun k _ => g k) i 0 bs.
+
   Definition lvf_ (_ : nat) (b : branch) : A := b_lvf b.
   Definition lvt_ (_ : nat) (b : branch) : A := b_lvt b.
 
@@ -177,6 +181,16 @@ Section Model.
   (* x solves J x = eps : every row holds.  Nothing is assumed about how spsolve finds x. *)
   Definition solves (ns : list node) (bs : list branch) (x : nat -> A) : Prop :=
     forall r, r < dim ns bs -> rowsum (trips ns bs) r x = nth r (eps ns bs) zero.
+
+  (* what both hydraulic kernels write into the node-equation columns (df_dm_nodes = 1,
+     load_vec_nodes_from = load_vec_nodes_to = MDOTINIT =: m k); no component hook overwrites
+     them.  Checked against the running code by the correspondence "solve_hydraulics step". *)
+  Definition kernel_cols (bs : list branch) (m : nat -> A) : Prop :=
+    forall k b, nth_error bs k = Some b -> b_dmn b = one /\ b_lvf b = m k /\ b_lvt b = m k.
+
+  (* both end nodes of every branch of the active pit are nodes of the active pit (reduce_pit) *)
+  Definition ends_in_range (ns : list node) (bs : list branch) : Prop :=
+    forall b, In b bs -> b_fn b < length ns /\ b_tn b < length ns.
 
   (* dense matrix (duplicates summed) for the correspondence *)
   Fixpoint entry (t : list trip) (r c : nat) : A :=
